@@ -156,6 +156,12 @@ func (s *serviceImpl) activate(activation Activation) error {
 func (s *serviceImpl) Remove(objectID uint32) error {
 	s.Lock()
 	if obj, ok := s.objects[objectID]; ok {
+		if _, pending := obj.(pendingObject); pending {
+			// Add has reserved the index and is activating the
+			// object: there is nothing to terminate yet.
+			s.Unlock()
+			return fmt.Errorf("object %d is being added", objectID)
+		}
 		delete(s.objects, objectID)
 		delete(s.boxes, objectID)
 		s.Unlock()
